@@ -22,19 +22,33 @@ import types
 import numpy as np
 
 
+_L = {}
+
+
+def _lib():
+    if not _L:
+        import sympy
+        from scipy import sparse
+        from scipy.sparse.linalg import LinearOperator
+
+        from pymablock.series import PENDING, one, zero
+
+        _L.update(sympy=sympy, sparse=sparse, LinearOperator=LinearOperator, PENDING=PENDING, one=one, zero=zero)
+    return _L
+
+
 def fingerprint(v) -> str:
     """Stable content hash of a series element (bitwise for numeric arrays)."""
-    import sympy
-    from scipy import sparse
-    from scipy.sparse.linalg import LinearOperator
-
-    from pymablock.series import PENDING, one, zero
-
-    if v is zero:
+    if type(v) is np.ndarray and v.dtype != object:
+        a = v if v.dtype == complex and v.flags.c_contiguous else np.ascontiguousarray(v, dtype=complex)
+        return "nd" + str(a.shape) + hashlib.md5(a.tobytes()).hexdigest()[:12]
+    L = _lib()
+    sympy, sparse, LinearOperator = L["sympy"], L["sparse"], L["LinearOperator"]
+    if v is L["zero"]:
         return "0"
-    if v is one:
+    if v is L["one"]:
         return "1"
-    if v is PENDING:
+    if v is L["PENDING"]:
         return "PENDING"
     if v is np.ma.masked:
         return "masked"
@@ -66,6 +80,12 @@ def fingerprint(v) -> str:
         return "tu" + hashlib.md5("|".join(fingerprint(x) for x in v).encode()).hexdigest()[:12]
     if hasattr(v, "name") and type(v).__name__ == "AlgebraElement":
         return "ae" + hashlib.md5(v.name.encode()).hexdigest()[:12]
+    if L.get("BlockSeries") is None:
+        from pymablock.series import BlockSeries
+
+        L["BlockSeries"] = BlockSeries
+    if isinstance(v, L["BlockSeries"]):
+        return f"view{v.shape}x{v.n_infinite}"
     return "py" + hashlib.md5(repr(v).encode()).hexdigest()[:12]
 
 
@@ -179,11 +199,14 @@ class World:
             if hasattr(o, "_data"):
                 items = []
                 for k, v in o._data.items():
+                    reg = self.registry.get(id(v))
+                    if reg is not None and reg[0] is v and reg[2]:
+                        items.append((k, reg[1]))
+                        continue
                     fp = fingerprint(v)
                     if check_mutation:
-                        reg = self.registry.get(id(v))
                         if reg is None:
-                            self.registry[id(v)] = (v, fp)
+                            self.registry[id(v)] = (v, fp, fp[:2] in ("sy", "se", "lo"))
                         elif reg[0] is v and reg[1] != fp:
                             mutated.append((name, k))
                     items.append((k, fp))
